@@ -558,7 +558,7 @@ theorem foldl_ge_init {α : Type} (f : Int → α → Int) (l : List α) (init :
   | nil => exact Int.le_refl _
   | cons x xs ih => exact Int.le_trans (hf init x) (ih (f init x))
 
-theorem earliestStart_ge (σ : St) (deps : List Dep) (base : Int) : base ≤ earliestStart σ deps base := by
+theorem earliestStart_ge (e : Env) (σ : St) (deps : List Dep) (base : Int) : base ≤ earliestStart e σ deps base := by
   unfold earliestStart
   apply foldl_ge_init
   intro acc dp; split
@@ -593,8 +593,8 @@ theorem initCursor_off (e : Env) (σ : St) (t : Nat) (wf : WF e) :
     · split
       · exact zero
       · apply cursorOf_off e wf
-        exact Int.le_trans (by omega) (earliestStart_ge σ _ _)
-    · exact cursorOf_off e wf _ (earliestStart_ge σ _ _)
+        exact Int.le_trans (by omega) (earliestStart_ge e σ _ _)
+    · exact cursorOf_off e wf _ (earliestStart_ge e σ _ _)
   · split <;> exact zero
 
 end SP
